@@ -457,7 +457,12 @@ def check_encode(ctx: Ctx, stream, prog, mlocus, loc, pools, files, err_rate, us
             if s.quals:
                 quals_seen.update(s.quals)
     # merged phreds are sums over the (few) alignments sharing a read name
-    sums = set(range(0, 3 * max(quals_seen, default=0) + 1)) if use_phred else set()
+    per_name = {}
+    for specs, _, _ in files.values():
+        for s in specs:
+            per_name[s.qname] = per_name.get(s.qname, 0) + 1
+    kmax = max(3, max(per_name.values(), default=0))
+    sums = set(range(0, kmax * max(quals_seen, default=0) + 1)) if use_phred else set()
     state = {"stop": False}
     for sample in prog.samples:
         members = pools[sample]
@@ -618,8 +623,11 @@ def rand_cigar(r, span_hint, pad=False):
     return ops
 
 
-def hand_case(r, pad=False):
-    """one contig pair, one locus, 6..18 records at the filter / window / merge boundaries"""
+def hand_case(r, pad=False, substr=False, few_names=False):
+    """one contig pair, one locus, 6..18 records at the filter / window / merge boundaries
+
+    `substr`: sample names / read-group IDs / read names that are substrings of each other (s1, s10, s1x, s);
+    `few_names`: two read names only, so that most names have >= 3 alignments."""
     L = r.randint(110, 160)
     contigs = {"c1": "".join(r.choice(S.BASES) for _ in range(L)), "c2": "".join(r.choice(S.BASES) for _ in range(L))}
     start = r.randint(25, 50)
@@ -643,10 +651,15 @@ def hand_case(r, pad=False):
     # read groups: ID strings deliberately collide with SM strings of other groups
     n_samples = r.choice([1, 2, 2, 3])
     sms = [f"s{i + 1}" for i in range(n_samples)]
+    if substr:
+        n_samples = r.choice([2, 3, 3, 4])
+        sms = r.sample(["s1", "s10", "s1x", "s"], n_samples)
     rgs = []
     for i, sm in enumerate(sms):
         for j in range(r.choice([1, 1, 2])):
             rid = f"g{len(rgs) + 1}"
+            if substr:
+                rid = ["g1", "g10", "g1x", "g", "g100", "1g", "g1.", "g11"][len(rgs)]
             if r.random() < 0.3:
                 rid = sms[(i + 1) % n_samples] if all(g["ID"] != sms[(i + 1) % n_samples] for g in rgs) else rid
             rgs.append({"ID": rid, "SM": sm})
@@ -654,6 +667,8 @@ def hand_case(r, pad=False):
     thr = r.choice([0, 1, 10, 20, 20, 30, 60])
     n_reads = r.randint(6, 18)
     names = [f"q{i}" for i in range(max(2, n_reads // 2))]
+    if few_names:
+        names = ["q1", "q10"]
     specs = []
     for i in range(n_reads):
         contig = "c1" if r.random() < 0.9 else "c2"
@@ -1176,6 +1191,10 @@ def run(tier, replay=None):
                               {**case, "impl": impl[:600], "expected": {k: dict(v) for k, v in want_rows.items()}},
                               "C06/pysam.get_aligned_pairs/cigar-P-consumes-query")
         ctx.flush()
+
+        # ------------------------------------------------------------ WP3: input shapes of the application glue
+        from . import wp3_c06 as W3
+        W3.extra_streams(ctx, work, tier)
     finally:
         shutil.rmtree(work, ignore_errors=True)
     sigs = {}
